@@ -269,6 +269,16 @@ template <size_t K> static std::string cast_all(const ruint<K>& x) {
     o << hex64((uint8_t)x) << " " << hex64((uint16_t)x) << " " << hex64((uint32_t)x) << " " << hex64((uint64_t)x) << " "
       << hex64((uint64_t)(int64_t)(int8_t)x) << " " << hex64((uint64_t)(int64_t)(int16_t)x) << " "
       << hex64((uint64_t)(int64_t)(int32_t)x) << " " << hex64((uint64_t)(int64_t)x) << " " << (bool(x) ? 1 : 0);
+    // (double)rint / (float)rint keep the sign (rrint.h, /repo d984652); printed when a double holds the value exactly
+    {
+        RecInt::ruint<K> mag = s.isNegative() ? (-s).Value : s.Value;
+        uint64_t lowmag = (uint64_t)mag;
+        if (lowmag < (uint64_t(1) << 53)) {
+            double d = (double)s;
+            o << " " << hex64((uint64_t)(int64_t)d);
+            if (lowmag < (uint64_t(1) << 24)) CHK((double)(float)s == d, "(float)rint");
+        } else o << " big";
+    }
     CHK((unsigned long long)x == (uint64_t)x && (long long)x == (int64_t)x && (unsigned char)x == (uint8_t)x && (short)x == (int16_t)x
         && (char)x == (char)(uint8_t)x && (unsigned short)x == (uint16_t)x && (int)x == (int32_t)x && (unsigned int)x == (uint32_t)x, "cast-aliases");
     CHK((double)x == (double)(uint64_t)x && (float)x == (float)(uint64_t)x, "(double)a");
